@@ -25,6 +25,17 @@ class Enum:
         self.idx, self.name, self.payload = variant_index, variant_name, payload
 
 
+class SymEnum:
+    """enum value with a symbolic discriminant: tag is an int term, variants = {index: (name, [payload values])}"""
+    def __init__(self, tag, variants, label=''):
+        self.tag, self.variants, self.label = tag, variants, label
+
+
+class VariantView:
+    def __init__(self, base, name):
+        self.base, self.name = base, name
+
+
 class Struct:
     def __init__(self, name, names, fields):
         self.name, self.names, self.fields = name, names, fields
@@ -50,6 +61,7 @@ class Interp:
         self.prefix = fresh_prefix
         self.steps = 0
         self.enums = {}    # enum name -> [variant names in declaration order]
+        self.opaque_ok = False   # unknown rvalues become opaque values instead of aborting
 
     def newvar(self, hint):
         self.fresh += 1
@@ -72,6 +84,10 @@ class Interp:
             if isinstance(base, Closure): return base.fields[k]
             if isinstance(base, Struct): return base.fields[k]
             if isinstance(base, Enum): return base.payload[k]
+            if isinstance(base, VariantView):
+                for idx, (nm, pl) in base.base.variants.items():
+                    if nm == base.name: return pl[k]
+                raise Unsupported('variant %s' % base.name)
             if isinstance(base, tuple) and base[0] == 'tuple': return base[1 + k]
             raise Unsupported('field %d of %r' % (k, base))
         m = re.fullmatch(r'\((.*) as (\w+)\)', p)
@@ -80,6 +96,8 @@ class Interp:
             if isinstance(base, Enum):
                 if base.name != m.group(2): raise Unsupported('variant mismatch')
                 return base
+            if isinstance(base, SymEnum):
+                return VariantView(base, m.group(2))
             raise Unsupported('downcast of %r' % (base,))
         raise Unsupported('place ' + p)
 
@@ -103,6 +121,8 @@ class Interp:
         if m: return ('bconst', m.group(1) == 'true')
         m = re.fullmatch(r'(?:copy|move|no_retag copy) (.*)', o)
         if m: return self.place(m.group(1), env)
+        m = re.fullmatch(r'const (?:quantity::)?(RGAS|KB|NAV)', o)
+        if m: return ('var', m.group(1))
         m = re.fullmatch(r'const (?:std|core)::f64::consts::(\w+)|const f64::(\w+)', o)
         if m:
             n = m.group(1) or m.group(2)
@@ -111,7 +131,7 @@ class Interp:
         raise Unsupported('operand ' + o)
 
     def is_int(self, v):
-        return isinstance(v, tuple) and v[0] in ('iconst', 'ivar', 'iadd', 'isub', 'imul')
+        return isinstance(v, tuple) and len(v) > 0 and v[0] in ('iconst', 'ivar', 'iadd', 'isub', 'imul')
 
     def binop(self, op, a, b):
         if self.is_int(a) and self.is_int(b):
@@ -156,6 +176,7 @@ class Interp:
         if m:
             v = self.place(m.group(1), env)
             if isinstance(v, Enum): return ('iconst', v.idx)
+            if isinstance(v, SymEnum): return v.tag
             raise Unsupported('discriminant of %r' % (v,))
         m = re.fullmatch(r'\{closure@([^}]*)\}(?: \{ (.*) \})?', rv)
         if m:
@@ -174,6 +195,9 @@ class Interp:
         m = re.fullmatch(r'(\w+)::(\w+)', rv)
         if m and m.group(1) in self.enums:
             return Enum(self.enums[m.group(1)].index(m.group(2)), m.group(2), [])
+        m = re.fullmatch(r'(?:std::result::)?Result::<.*>::(Ok|Err)\((.*)\)', rv)
+        if m:
+            return Enum(0 if m.group(1) == 'Ok' else 1, m.group(1), [self.operand(m.group(2), env)])
         m = re.fullmatch(r'\((.*),\)', rv)
         if m: return ('tuple', self.operand(m.group(1), env))
         m = re.fullmatch(r'\((.*)\)', rv)
@@ -197,7 +221,13 @@ class Interp:
     FLOAT_UN = {'sqrt': 'sqrt', 'ln': 'ln', 'exp': 'exp', 'atan': 'atan', 'sin': 'sin', 'cos': 'cos', 'tanh': 'tanh'}
 
     def call(self, callee, argtxt, env, dst_type):
-        args = [self.operand(a, env) for a in self.split_args(argtxt)] if argtxt.strip() else []
+        args = []
+        for a in (self.split_args(argtxt) if argtxt.strip() else []):
+            try:
+                args.append(self.operand(a, env))
+            except Unsupported:
+                if not self.opaque_ok: raise
+                args.append(self.newvar('opaque'))
         m = re.fullmatch(r'<&?f64 as (Add|Sub|Mul|Div)(?:<&?f64>)?>::(add|sub|mul|div)', callee)
         if m: return self.binop(m.group(1), args[0], args[1])
         m = re.fullmatch(r'(?:core|std)::f64::<impl f64>::(\w+)', callee)
@@ -230,7 +260,11 @@ class Interp:
                 if s.startswith('StorageLive') or s.startswith('StorageDead') or s.startswith('nop') or s.startswith('FakeRead') or s.startswith('PlaceMention') or s.startswith('AscribeUserType') or s.startswith('Retag'):
                     continue
                 raise Unsupported('statement ' + s)
-            env[m.group(1)] = self.rvalue(m.group(2), env, self.f.types.get(m.group(1), ''))
+            try:
+                env[m.group(1)] = self.rvalue(m.group(2), env, self.f.types.get(m.group(1), ''))
+            except Unsupported:
+                if not self.opaque_ok: raise
+                env[m.group(1)] = self.newvar('opaque')
         t = sts[-1]
         if t == 'return;':
             return env.get('_0')
